@@ -17,6 +17,7 @@ from ..gen_values import strict_parser as _strict_parser
 from ..normalise import snapshot, clone
 
 CHECK = "C16"
+OWN_HISTORY = True   # after the pristine copy was forked
 RULE = (
     "parsers: all ordered pairs and triples over 16 representative texts "
     "(well-formed, with empty values, failing in the lexer, failing deep in a "
@@ -511,6 +512,10 @@ def shard(i, n, tier, seed, rec, hb):
 
     # forked before this worker has parsed, written or decoded anything
     pristine = common.Pristine(reference)
+    # (the pristine copy exists now; this worker itself may have a past)
+    from .. import prelude
+    rec.count("workers_with_a_hostile_history"
+              if prelude.hostile_history(pvl, i) else "workers_starting_fresh")
     try:
         parser_histories(rec, hb, pvl, tier, seed, i, n, pristine)
         encoder_histories(rec, hb, pvl, tier, seed, i, n, pristine, mods, cfgs)
